@@ -308,6 +308,8 @@ class Target:
                 reply = reply[:c[1]]
             elif c[0] == "flip" and c[1] < len(reply):
                 reply = reply[:c[1]] + bytes([reply[c[1]] ^ c[2]]) + reply[c[1] + 1:]
+            elif c[0] == "status32":                    # non-zero encapsulation status on an otherwise complete reply
+                reply = reply[:8] + p32(c[1]) + reply[12:]
             elif c[0] == "encap":
                 reply = reply[:8] + p32(c[1]) + reply[12:24]
                 reply = reply[:2] + p16(0) + reply[4:]
